@@ -48,8 +48,18 @@ fn('SlidingWindowTracker.update', F, self_cls='SlidingWindow', params={'value_i'
    returns_self=True, modifies=['window_k', 'sliding_window'],
    ensures={'count': lambda c: c.new.cnt == c.old.cnt + 1})
 
+def _stat_post(c, np_name):
+    """the NaN-aware statistic of the buffer; the standard deviation may equally be computed as the root of the variance
+    (np.nanstd IS sqrt(np.nanvar))"""
+    from pyvc.pylib import SQRT
+    buf = c.old.sliding_window.t
+    if np_name == 'nanstd':
+        return lor(c.res == NANSTAT['nanstd'](buf), c.res == SQRT(NANSTAT['nanvar'](buf)))
+    return c.res == NANSTAT[np_name](buf)
+
+
 for stat, np_name in (('mean', 'nanmean'), ('var', 'nanvar'), ('std', 'nanstd')):
     fn('SlidingWindow.' + stat, F, src_cls='SlidingWindowTracker', kind='property', self_cls='SlidingWindow', pure=True, ret=TNum,
-       ensures={'nan_aware_statistic_of_buffer': (lambda c, np_name=np_name: c.res == NANSTAT[np_name](c.old.sliding_window.t))})
+       ensures={'nan_aware_statistic_of_buffer': (lambda c, np_name=np_name: _stat_post(c, np_name))})
 fn('SlidingWindow.__call__', F, src_cls='SlidingWindowTracker', self_cls='SlidingWindow', pure=True, ret=TNum,
    ensures={'is_mean': lambda c: c.res == NANSTAT['nanmean'](c.old.sliding_window.t)})
